@@ -42,6 +42,17 @@ def r01_1_2(ctx, fx):
     for fld, what in (("identity_sig", "signature"), ("identity_key", "identity key")):
         oo = [c for c in fn.calls(r"option::Option(<.*>)?::ok_or(_else)?$") if ("." + fld) in fn.origin(c.args[0]) or any(x.startswith("param:_1." + fld) for x in guards.rootstrs(fn, c.args[0]))]
         used = bool(oo) and any(("call", c.name) in fn.roots(a) for c in oo for a in ver[0].args)
+        if not used:
+            # the same thing spelled with `let Some(x) = payload.<fld> else { return Err(..) }` / `match`: verify is reached only over the
+            # Some edge of a test of that option, and its argument is the option's payload
+            some = set()
+            for sw in fn.discr_switches():
+                if ("." + fld) in fn.origin({"c": list(sw[1])}) and sw[2] and sw[2].endswith("option::Option"):
+                    for lab in fn.variant_edges(sw, "Some"):
+                        if lab not in fn.variant_edges(sw, "None"):
+                            some.add((sw[0], lab))
+            fed = any(any(x.startswith("param:_1." + fld) for x in guards.rootstrs(fn, a)) for a in ver[0].args)
+            used = bool(some) and fed and ver[0].node not in fn.reach([fn.entry], cut=some)
         ctx.ob("R01.1", "parse_and_verify_peer_id/missing-%s-is-an-error" % fld, used, site=fn.site(oo[0].node) if oo else fn.site(fn.entry), cfg=fx.cfg,
                detail="the %s handed to verify must be the payload of `payload.%s.ok_or(..)?`: None can then only reach the Err exit" % (what, fld))
     v = ver[0]
@@ -186,6 +197,20 @@ def r01_5(ctx, fx):
             ctx.bodies.add((fx.cfg, inner.key))
             irs = guards.rootstrs(inner, {"c": [0]})
             ok2 = ok2 and not any(x.startswith("const:Ok") or "Result::Ok" in x for x in irs)
+        if not ok:
+            # `matches!(result, Ok(..))`: the verdict is the constant true only on the Ok edge of a switch on the verification result
+            d0 = fn.defs().get(0, [])
+            consts = all(k == "assign" and pl["rv"]["r"] == "use" and fn.const_value(pl["rv"]["o"]) in (0, 1) and "k" in pl["rv"]["o"] for n, k, pl in d0)
+            trues = [n for n, k, pl in d0 if k == "assign" and pl["rv"]["r"] == "use" and fn.const_value(pl["rv"]["o"]) == 1]
+            for sw in fn.discr_switches():
+                if not (sw[2] and sw[2].endswith("result::Result") and len(sw[1]) == 1):
+                    continue
+                if not any(re.search(r"and_then$|verify(_strict)?$", x) for x in guards.rootstrs(fn, {"c": list(sw[1])})):
+                    continue
+                okl = fn.variant_edges(sw, "Ok")
+                other = [n for n, l in fn.succs(sw[0]) if l not in okl]
+                if d0 and consts and trues and okl and not any(n in fn.reach(other) for n in trues) and not any(n in fn.reach([fn.entry], avoid=[sw[0]]) for n in trues):
+                    ok = True
         ctx.ob("R01.5", "ed25519::PublicKey::verify/verdict-is-dalek-verify(msg,sig).is_ok()", ok and ok2, site=fn.site(fn.entry), cfg=fx.cfg, detail=str(sorted(rs)))
 
 
